@@ -97,7 +97,7 @@ def generate(repo):
     for m in re.finditer(r"(?m)^int\s+(translation_direction)\s*=", src):
         inv.append(("lou_translateString.c", "file", m.group(1)))
     inv = sorted(set(inv))
-    out = [HEADER]
+    out = [HEADER, "From Lou Require Import Gen.GConst.\n\n"]
     out.append("(* every non-const static / file-scope variable of the library: (file, scope, name) *)\n")
     out.append("Definition statics : list (string * string * string) := [\n")
     out.append(";\n".join("  (%s, %s, %s)" % (coq_string(a), coq_string(b), coq_string(c)) for a, b, c in inv))
@@ -166,4 +166,62 @@ def generate(repo):
     txt = " ".join(show_stmt(s) for s in body)
     resets = sorted(set(re.findall(r"(\w+(?:\[k\])?) = (?:NULL|0);", txt)))
     out.append("Definition free_resets : list string := [%s].\n" % "; ".join(coq_string(r.replace("[k]", "")) for r in resets))
+    out.append(reset_facts(repo))
+    return "".join(out)
+
+
+def reset_facts(repo):
+    """per-call state that is reset explicitly: the multipass variables.  Declared extent, the extent of the reset,
+    and which stage functions perform the reset before they execute pass instructions."""
+    src = source(repo, "commonTranslationFunctions.c")
+    m = re.search(r"static\s+(\w+)\s+passVariables\s*\[([^\]]+)\]\s*;", src)
+    if not m:
+        raise cparse.ParseError("declaration of passVariables not recognised")
+    elem = {"int": 4, "unsigned": 4, "short": 2, "char": 1, "long": 8, "widechar": 2}.get(m.group(1))
+    if elem is None:
+        raise cparse.ParseError("element type of passVariables: " + m.group(1))
+    to = cparse.ToZ({"sizeof(passVariables[0])": "passvars_elem_bytes", "sizeof(passVariables)": "(passvars_elem_bytes * passvars_count)",
+                     "sizeof(int)": "4", "sizeof(*passVariables)": "passvars_elem_bytes", "NUMVAR": "NUMVAR"})
+    count = to.z(cparse.parse_expr(m.group(2)))
+    _, body = func(repo, "commonTranslationFunctions.c", "_lou_resetPassVariables")
+    found = []
+
+    def visit(st):
+        for e in stmt_exprs(st):
+            def f(x):
+                if x[0] == "call" and cparse.show_c(x[1]) == "memset" and cparse.show_c(x[2][0]) in ("passVariables", "&passVariables[0]", "&passVariables"):
+                    found.append(x)
+            walk_expr(e, f)
+    walk_stmts(body, visit)
+    if len(found) == 1 and cparse.show_c(found[0][2][1]) == "0":
+        reset = to.z(found[0][2][2])
+    else:
+        # a loop `for (k = 0; k < N; k++) passVariables[k] = 0;'
+        txt = " ".join(show_stmt(s) for s in body)
+        mm = re.search(r"for \((?:int )?(\w+) = 0; \1 < ([^;]+); \1\+\+\) passVariables\[\1\] = 0;", txt)
+        if not mm:
+            raise cparse.ParseError("_lou_resetPassVariables: reset not recognised: " + txt[:200])
+        reset = "(passvars_elem_bytes * %s)" % to.z(cparse.parse_expr(mm.group(2)))
+    out = ["\n(* multipass variables: declared extent, extent cleared by _lou_resetPassVariables (bytes) *)\n"]
+    out.append("Definition passvars_elem_bytes : Z := %d.\n" % elem)
+    out.append("Definition passvars_count : Z := %s.\n" % count)
+    out.append("Definition passvars_reset_bytes : Z := %s.\n" % reset)
+    # stage functions: those from which a pass-variable test/action can be reached must reset first
+    users, resetters = [], []
+    for f in ("lou_translateString.c", "lou_backTranslateString.c"):
+        src = source(repo, f)
+        for fn, body in cparse.list_functions(src):
+            if re.search(r"\b_lou_resetPassVariables\s*\(\s*\)", body):
+                # the reset must come before the first loop of the function
+                i = body.find("_lou_resetPassVariables")
+                j = min([x for x in (body.find("while"), body.find("for (")) if x >= 0] or [len(body)])
+                resetters.append((f, fn, i < j))
+            if re.search(r"\b_lou_handlePassVariable(Test|Action)\s*\(", body):
+                users.append((f, fn))
+    out.append("(* functions that reset the variables, and whether the reset precedes their first loop *)\n")
+    out.append("Definition passvars_resetters : list (string * string * bool) := [%s].\n"
+               % "; ".join("(%s, %s, %s)" % (coq_string(a), coq_string(b), "true" if c else "false") for a, b, c in sorted(resetters)))
+    out.append("(* functions that read or write them *)\n")
+    out.append("Definition passvars_users : list (string * string) := [%s].\n"
+               % "; ".join("(%s, %s)" % (coq_string(a), coq_string(b)) for a, b in sorted(users)))
     return "".join(out)
